@@ -148,6 +148,10 @@ def tree(rng, B, pl, max_files=6, allow_empty=True, big=True):
                 twin.hardlink_of = None
                 twin.symlink_of = files[0][0]         # ... or as a symbolic link to the first file
             files[1] = (files[1][0], twin)
+    if rng.random() < 0.06 and not any(r == ".pad" or r.startswith(".pad/") for r, _ in files):
+        n = rng.choice([1, 777, pl - 1, pl + 1, 22768])
+        files.append((f".pad/{n}", Blob.rand(rng.randrange(1, 40), n)))     # named like a padding file
+        classes.append("pad-like")
     files = FileList(files)
     if rng.random() < 0.15:
         taken = {r for r, _ in files}
